@@ -67,7 +67,7 @@ MATRIX = _matrix()
 
 def streams(ctx):
     return [("matrix", len(MATRIX)), ("random", ctx.scale(200, 5000)), ("argparse_return", ctx.scale(150, 3000)),
-            ("longdoc", ctx.scale(80, 1500)), ("shapes", ctx.scale(150, 3000)), ("big", ctx.scale(30, 500)), ("similar", ctx.scale(100, 1500)),
+            ("longdoc", ctx.scale(80, 1500)), ("shapes", ctx.scale(150, 3000)), ("big", ctx.scale(30, 500)), ("similar", ctx.scale(100, 1500)), ("hardstr", ctx.scale(120, 2000)),
             ("body_wins", ctx.scale(150, 2500)), ("few", ctx.scale(120, 2000))]
 
 
@@ -280,6 +280,14 @@ def gen_case(ctx, stream, idx):
         if r.random() < 0.15:
             rp["doc"] = ""
         return ir
+    if stream == "hardstr":
+        # str defaults with a double quote, a backslash, a backtick, or different quote characters at the two ends: prose
+        # cannot carry them (recorded finding of the docstring layer), every carrier that writes the default as code must
+        ir = irgen.rand_ir(r, type_kinds=("str", "str", "int", "optional"), default_kinds=("strbad", "strbad", "int", "str"),
+                           nparams=r.randint(1, 4), all_defaults=True, with_return=False)
+        ir["params"][r.choice(("quoted", "sep", "motto"))] = {"doc": irgen.rand_doc(r, stop=False), "typ": "str",
+                                                               "default": r.choice(irgen.STRBAD)}
+        return ir
     raise ValueError(stream)
 
 
@@ -307,6 +315,8 @@ def run_case(ctx, P, stream, idx):
             continue  # (Google/NumPy argparse docstrings with a return default are rejected by the unchanged parser)
         if stream == "shapes" and fmt == "argparse" and any(p["typ"] in irgen.NESTED_TYPES for p in ir0["params"].values()):
             continue  # argparse has no notation for compound types (they are narrowed: C02's documented findings)
+        if stream == "hardstr" and kw["emit_default_doc"]:
+            continue  # (the default would be written into prose as well)
         ir = ir0
         if fmt == "function":
             ft, ir_type = FUNCTION_TYPES[(idx + n) % len(FUNCTION_TYPES)]
